@@ -11,6 +11,7 @@ import (
 	"sync"
 
 	log "github.com/golang/glog"
+	"github.com/westerndigitalcorporation/blb/pkg/verifhook"
 )
 
 // defaultMaxFileSize is the size (in bytes) to which we try to limit
@@ -504,10 +505,13 @@ func (l *fsLog) deleteFiles(filesToDelete []fileInfo, deleteType int, cmd string
 		}
 		seqNum := filesToDelete[idx].seqNum
 		name := l.generateLogFileName(seqNum)
+		verifhook.At("wal.unlink.before", name)
 		if err := os.Remove(name); err != nil {
+			verifhook.At("wal.unlink.after", name, err)
 			log.Errorf("Failed to remove file %s for %s: %v", name, cmd, err)
 			return err
 		}
+		verifhook.At("wal.unlink.after", name, nil)
 
 		log.Infof("Deleted file %q for %s", name, cmd)
 
@@ -544,13 +548,16 @@ func (l *fsLog) syncHomeDir() error {
 		return err
 	}
 
+	verifhook.At("wal.dirsync.before", l.homeDir)
 	if err = dir.Sync(); err != nil {
+		verifhook.At("wal.dirsync.after", l.homeDir, err)
 		log.Errorf("Failed to fsync dir %q: %v", l.homeDir, err)
 		if cerr := dir.Close(); cerr != nil {
 			log.Errorf("Failed to close dir %q: %v", l.homeDir, cerr)
 		}
 		return err
 	}
+	verifhook.At("wal.dirsync.after", l.homeDir, nil)
 
 	if err = dir.Close(); err != nil {
 		log.Errorf("Failed to close dir %q: %v", l.homeDir, err)
